@@ -108,7 +108,17 @@ class LoopMixin:
                 el = SV(tt, items.e[q])
                 k_, val_ = ops.tuple_parts(el)
                 s.assume(z3.ForAll([q], z3.Implies(z3.And(0 <= q, q < z3.Length(items.e)), z3.Select(v.e, k_.e) == ty.opt_some(val_).e)))
-                self.assumptions.add("dict.items(): modelled as some sequence of entries of the dict (completeness and order of the enumeration not encoded)")
+                # every key occurs (at the witness position where!(key)) and no key occurs twice
+                kk = z3.Const("k!items%d" % self._fresh(), ty.sort_of(v.t.key))
+                where = z3.Function("where_items!%d" % self._fresh(), ty.sort_of(v.t.key), z3.IntSort())
+                kw_, _ = ops.tuple_parts(SV(tt, items.e[where(kk)]))
+                s.assume(z3.ForAll([kk], z3.Implies(z3.Not(ty.opt_is_none(SV(ty.Opt(v.t.val), z3.Select(v.e, kk)))),
+                                                   z3.And(0 <= where(kk), where(kk) < z3.Length(items.e), kw_.e == kk)),
+                                   patterns=[z3.Select(v.e, kk)]))
+                q2 = z3.Int("q2!items%d" % self._fresh())
+                k2_, _ = ops.tuple_parts(SV(tt, items.e[q2]))
+                s.assume(z3.ForAll([q, q2], z3.Implies(z3.And(0 <= q, q < q2, q2 < z3.Length(items.e)), k_.e != k2_.e)))
+                self.assumptions.add("dict.items(): modelled as an enumeration of the dict's entries, each key exactly once; the insertion order is not encoded")
                 out.append((s, IterDesc(z3.Length(items.e), (lambda items, tt: lambda i: SV(tt, items.e[i]))(items, tt))))
             return out
         out = []
